@@ -159,7 +159,7 @@ DepCloseInstrs(c, m, oc) ==
   IN [j \in 1..Len(order) |-> I("dep_close", order[j].id, 0, saw, "go", NoG, "")]
 
 SaveFlags(oc) == IF oc = "ret" THEN 6 ELSE 29
-SaveCls(oc) == CASE oc = "ret" -> "none" [] oc = "cancel" -> "timeout" [] oc = "cerr" -> "cancel" [] OTHER -> oc
+SaveCls(oc) == CASE oc = "ret" -> "none" [] oc = "cancel" -> "timeout" [] oc = "cerr" -> "cancel" [] oc = "falsy" -> "exc" [] OTHER -> oc
 
 AckDies(c, m, at) == c.ackable /\ MsgC(c, m).ackfail /\ AckT(c) = at
 Pre(c, m) ==
